@@ -421,6 +421,19 @@ pub fn generate(property: &str, tier: &str, seed: u64, index: u64) -> Plan {
             match index % 8 {
                 0 => s1(property, "s1-faultfree", seed, &S1Opts { faults: false, ..Default::default() }),
                 1 => s1(property, "s1-3to4peers", seed, &S1Opts { min_peers: 3, ..Default::default() }),
+                2 => {
+                    // an input type whose serialised size depends on the value
+                    // (only where every endpoint carries exactly one player: GGRS splits a frame evenly
+                    // between the players of an endpoint, so inputs of different sizes on one endpoint -
+                    // two local players, or any spectator - cannot be decoded at all; see DESIGN.md §15)
+                    let mut p = s1(property, "s1-variable-size-input", seed, &S1Opts { allow_spectators: false, ..Default::default() });
+                    let one_each = p.nodes.iter().all(|n| matches!(&n.kind, NodeKind::Peer { locals } if locals.len() == 1));
+                    p.cfg.variable_size_input = one_each;
+                    if !one_each {
+                        p.scenario = "s1".into();
+                    }
+                    p
+                }
                 _ => s1(property, "s1", seed, &S1Opts::default()),
             }
         }
